@@ -46,7 +46,7 @@ TRUSTED_EXTRA = [
 def batches(tier):
     if tier == 'thorough':
         return [('pg', 24000), ('redis', 8000), ('contact', 500), ('conv', 4000), ('serde', 16000)]
-    return [('pg', 700), ('redis', 360), ('contact', 60), ('conv', 200), ('serde', 700)]
+    return [('pg', 1800), ('redis', 900), ('contact', 120), ('conv', 400), ('serde', 1800)]
 
 
 def cargo_build():
